@@ -737,6 +737,21 @@ def _r5(ck: Checker, r):
             loops = [st for st in br.body if isinstance(st, ast.For) and any(s in ast.walk(st) for s in mask_stores)]
             good = len(loops) == 1 and isinstance(loops[0].iter, ast.Call) and call_name(loops[0].iter) == "zip" \
                 and unparse(loops[0].iter.args[0]) == "hvsr.hvsrs" and not any(isinstance(x, (ast.Break, ast.Continue, ast.If)) for x in ast.walk(loops[0]))
+            # a new member starts wherever the azimuth label of a column differs from the label before it (in either direction:
+            # the azimuths of a file need not increase)
+            for lp_ in [x for x in ast.walk(body) if isinstance(x, ast.For)]:
+                for iff in [x for x in ast.walk(lp_) if isinstance(x, ast.If) and any(call_name(c) == "append" for b in x.body for c in calls_in(b))]:
+                    t = iff.test
+                    if isinstance(t, ast.UnaryOp) and isinstance(t.op, ast.Not) and isinstance(t.operand, ast.Compare) and len(t.operand.ops) == 1 and isinstance(t.operand.ops[0], ast.Eq):
+                        continue
+                    if isinstance(t, ast.Compare) and len(t.ops) == 1:
+                        if isinstance(t.ops[0], ast.NotEq):
+                            ck.ok("C12.R5", R, "azimuthal: a member ends where the column label changes", nontrivial=False)
+                        elif isinstance(t.ops[0], (ast.Gt, ast.GtE, ast.Lt, ast.LtE)):
+                            good = False
+                            ck.violation("C12.R5", R, "azimuthal: grouping of the columns",
+                                         f"columns are split into members by `{unparse(t)[:80]}`, not wherever the azimuth label changes: for azimuths that are not "
+                                         f"stored in that order, columns of different azimuths are merged into one member", loc=r.loc(iff))
             # the members are handed to the container in the order of the file's columns - the order the stored mask lists follow
             for c in [c for c in calls_in(body) if call_name(c) == "HvsrAzimuthal"]:
                 for kwn, pos in (("hvsrs", 0), ("azimuths", 1)):
